@@ -8,9 +8,11 @@
    set_cur_pwr_max_out, and force_max()) are parameters; its own bookkeeping is Consist.v.
    An error raised inside the consist calls is outside this model (the harness separates them).
 
-   One deliberate difference from the unchanged tree (repo_patches/C12-offset-back.diff): after the
+   Two deliberate differences from the unchanged tree: (repo_patches/C12-offset-back.diff) after the
    position update both simulations refresh [offset_back := offset - length]; the unchanged code
-   leaves the rear position of the PREVIOUS step in the saved row. *)
+   leaves the rear position of the PREVIOUS step in the saved row; (repo_patches/
+   C14-negative-first-sample.diff) SetSpeedTrainSim also rejects a negative PREVIOUS sample, the
+   unchanged code never looks at the sign of the trace's first sample. *)
 From Coq Require Import ZArith List Bool.
 From AltModel Require Import Num Interp Resist Braking.
 Import ListNotations.
@@ -71,8 +73,9 @@ Definition mk_pw (pres pacc whl dt : F) (w : Pw (F:=F)) : Pw :=
                              else w_energy_whl_out_neg w - whl * dt |}.
 
 (* ---------------------------------------------------------------- SetSpeedTrainSim::solve_step
-   Panic 1201 speed[i] out of bounds, Err 1202 negative trace speed, Panic 1203 time[i] out of
-   bounds, Panic 1204 [i - 1] at i = 0, Err 1205 ensure!(pwr_pos_max >= 0). *)
+   Panic 1201 speed[i] out of bounds, Err 1202 negative trace speed (sample i, and -- the fix --
+   sample i-1), Panic 1203 time[i] out of bounds, Panic 1204 [i - 1] at i = 0,
+   Err 1205 ensure!(pwr_pos_max >= 0). *)
 Definition ss_solve_step (e : Env) (times speeds : list F) (cl : ConLim)
     (st : TState (F:=F)) (c : ResCache) : res (TState (F:=F) * ResCache) :=
   let i := k_i (ts_k st) in
@@ -80,34 +83,40 @@ Definition ss_solve_step (e : Env) (times speeds : list F) (cl : ConLim)
   | None => Panic 1201
   | Some v_i =>
     let? _ := ensure (n0 <=? v_i) 1202 in
-    match nth_error times i, i with
-    | None, _ => Panic 1203
-    | Some _, O => Panic 1204
-    | Some t_i, S im1 =>
-      match nth_error times im1, nth_error speeds im1 with
-      | Some t_p, Some v_p =>
-        let dt_i := t_i - t_p in
-        let? (st1, c1) := strap_update_res (e_grades e) (e_curves e) (e_rp e) st c DFwd in
-        let k := ts_k st1 in let p := ts_p st1 in let w := ts_w st1 in
-        (* solve_required_pwr *)
-        let pwr_pos_max := pwr_pos_max_of cl (w_pwr_whl_out w) (k_dt k) in
-        let pwr_neg_max := pwr_neg_max_of cl in
-        let? _ := ensure (n0 <=? pwr_pos_max) 1205 in
-        let mean := half * (v_i + v_p) in
-        let pres := res_net (ts_r st1) * mean in
-        let pacc := mass_compound p / (two * dt_i) * (v_i * v_i - v_p * v_p) in
-        let whl := clip (pacc + pres) pwr_neg_max pwr_pos_max in
-        (* solve_step, after the consist *)
-        let offset' := k_offset k + mean * dt_i in
-        let? (lnk, oil) := set_link_and_offset (e_lps e) offset' in
-        Ok ({| ts_k := {| k_time := t_i; k_i := k_i k; k_offset := offset';
-                          k_offset_back := offset' - p_length p;
-                          k_total_dist := k_total_dist k + nabs (mean * dt_i);
-                          k_link_idx_front := lnk; k_offset_in_link := oil;
-                          k_speed := v_i; k_speed_limit := k_speed_limit k;
-                          k_speed_target := k_speed_target k; k_dt := dt_i |};
-               ts_p := p; ts_r := ts_r st1; ts_w := mk_pw pres pacc whl dt_i w |}, c1)
-      | _, _ => Panic 1203
+    match i with
+    | O => Panic 1204
+    | S im1 =>
+      match nth_error speeds im1 with
+      | None => Panic 1201
+      | Some v_p =>
+        (* the fix (repo_patches/C14-negative-first-sample.diff): the previous sample is checked too,
+           so that the first sample of the trace cannot be negative *)
+        let? _ := ensure (n0 <=? v_p) 1202 in
+        match nth_error times i, nth_error times im1 with
+        | Some t_i, Some t_p =>
+          let dt_i := t_i - t_p in
+          let? (st1, c1) := strap_update_res (e_grades e) (e_curves e) (e_rp e) st c DFwd in
+          let k := ts_k st1 in let p := ts_p st1 in let w := ts_w st1 in
+          (* solve_required_pwr *)
+          let pwr_pos_max := pwr_pos_max_of cl (w_pwr_whl_out w) (k_dt k) in
+          let pwr_neg_max := pwr_neg_max_of cl in
+          let? _ := ensure (n0 <=? pwr_pos_max) 1205 in
+          let mean := half * (v_i + v_p) in
+          let pres := res_net (ts_r st1) * mean in
+          let pacc := mass_compound p / (two * dt_i) * (v_i * v_i - v_p * v_p) in
+          let whl := clip (pacc + pres) pwr_neg_max pwr_pos_max in
+          (* solve_step, after the consist *)
+          let offset' := k_offset k + mean * dt_i in
+          let? (lnk, oil) := set_link_and_offset (e_lps e) offset' in
+          Ok ({| ts_k := {| k_time := t_i; k_i := k_i k; k_offset := offset';
+                            k_offset_back := offset' - p_length p;
+                            k_total_dist := k_total_dist k + nabs (mean * dt_i);
+                            k_link_idx_front := lnk; k_offset_in_link := oil;
+                            k_speed := v_i; k_speed_limit := k_speed_limit k;
+                            k_speed_target := k_speed_target k; k_dt := dt_i |};
+                 ts_p := p; ts_r := ts_r st1; ts_w := mk_pw pres pacc whl dt_i w |}, c1)
+        | _, _ => Panic 1203
+        end
       end
     end
   end.
